@@ -324,6 +324,33 @@ func (p *Pools) GenEntry(r *rand.Rand, op *spb.AFTOperation, kind string) {
 	}
 }
 
+// Strip reduces the payload of op's entry to what an entry must carry (the group reference of a
+// top-level entry; one listed next-hop of a group; the address of a next-hop).
+func Strip(op *spb.AFTOperation) {
+	switch t := op.Entry.(type) {
+	case *spb.AFTOperation_Ipv4:
+		if e := t.Ipv4.Ipv4Entry; e != nil {
+			t.Ipv4.Ipv4Entry = &aftpb.Afts_Ipv4Entry{NextHopGroup: e.NextHopGroup, NextHopGroupNetworkInstance: e.NextHopGroupNetworkInstance}
+		}
+	case *spb.AFTOperation_Ipv6:
+		if e := t.Ipv6.Ipv6Entry; e != nil {
+			t.Ipv6.Ipv6Entry = &aftpb.Afts_Ipv6Entry{NextHopGroup: e.NextHopGroup, NextHopGroupNetworkInstance: e.NextHopGroupNetworkInstance}
+		}
+	case *spb.AFTOperation_Mpls:
+		if e := t.Mpls.LabelEntry; e != nil {
+			t.Mpls.LabelEntry = &aftpb.Afts_LabelEntry{NextHopGroup: e.NextHopGroup, NextHopGroupNetworkInstance: e.NextHopGroupNetworkInstance}
+		}
+	case *spb.AFTOperation_NextHopGroup:
+		if g := t.NextHopGroup.NextHopGroup; g != nil && len(g.NextHop) > 0 {
+			t.NextHopGroup.NextHopGroup = &aftpb.Afts_NextHopGroup{NextHop: g.NextHop[:1]}
+		}
+	case *spb.AFTOperation_NextHop:
+		if t.NextHop.NextHop != nil {
+			t.NextHop.NextHop = &aftpb.Afts_NextHop{IpAddress: sv("10.0.0.77")}
+		}
+	}
+}
+
 // KeyOnly returns a copy of op whose entry carries the key only (as a DELETE may).
 func KeyOnly(op *spb.AFTOperation) {
 	switch t := op.Entry.(type) {
